@@ -81,7 +81,8 @@ def register(db):
         ghost_init={"trace": "events", "store_fails": "bool", "eager": "int", "invocations": "int", "last_ret": "opaque"},
         requires=["valid_parameters(parameters)", "parameters.delay.cron is None",
                   "parameters.delay.defer_by is None or us(parameters.delay.defer_by) <= 10**6 * 86400 * 366 * 1000",
-                  "parameters.result is None or self._conn.results_bucket_broker is not None"],
+                  "parameters.result is None or self._conn.results_bucket_broker is not None",
+                  "implies(is_marker(payload), self._conn.args_bucket_broker is not None)"],
         ensures={
             "exactly_one_disposition": "(ghost.eager - old(ghost.eager)) + n_terminal(trace) == 1",
             "eager_means_hands_off": "implies(ghost.eager == old(ghost.eager) + 1, len(trace) == 0)",
